@@ -28,6 +28,8 @@ Record msend := mkMS {
 
 Definition ms_init : msend := mkMS [] 0.
 Definition ms_queue (st : msend) (m : bytes) : msend := mkMS (mg_bufs st ++ [mg_frame m]) (mg_off st).
+(* MGHasBytesToOutput: _curOutput != NULL *)
+Definition mg_has_bytes (st : msend) : bool := match mg_bufs st with [] => false | _ => true end.
 
 Fixpoint mg_out (scr : list N) (st : msend) (maxb : N) (acc : bytes) {struct scr} : msend * bytes :=
   match mg_bufs st with
